@@ -264,19 +264,13 @@ def liftConstModel (liftAll : Bool) (limit : Nat) (m : Model) : Model :=
 
 /-! ## DeduplicateInitializersPass / DeduplicateHashedInitializersPass
 (initializer_deduplication.py:19-179): every graph of `model.graphs()` = main graph and its subgraphs.
-The hashed variant keys on a SHA-512 digest and re-checks the bytes; assuming no digest collision it
-is the same function with another default size limit. -/
+The hashed variant keys on a SHA-512 digest of the same content and re-checks it; assuming no digest
+collision it is the same function with another default size limit. -/
 
-/-- initializer_deduplication.py:48-66 `_tobytes`: `np.array(string_data()).tobytes()` stores every
-    string NUL-padded to the width of the longest one (width at least 1) -/
-def dedupBytes (t : Tensor) : List Nat :=
-  if t.dtype == 8 then
-    let w := (t.strs.map List.length).foldl max 1
-    t.strs.flatMap (fun s => s ++ List.replicate (w - s.length) 0)
-  else t.bytes
-
-abbrev DedupKey := Nat × List Nat × List Nat
-def dedupKey (t : Tensor) : DedupKey := (t.dtype, t.shape, dedupBytes t)
+/-- initializer_deduplication.py `_tobytes` and the key `(dtype, shape, _tobytes)`: raw bytes for numeric
+    tensors, the tuple of strings for string tensors — the key is the tensor -/
+abbrev DedupKey := Nat × List Nat × List Nat × List (List Nat)
+def dedupKey (t : Tensor) : DedupKey := (t.dtype, t.shape, t.bytes, t.strs)
 
 /-- one graph's initializers in order (initializer_deduplication.py:19-45, 93-119).  `io` = inputs
     and outputs of the graph (skipped), `seen` = key ↦ first initializer.  Returns the remaining
@@ -311,21 +305,6 @@ end
 
 def dedupModel (limit : Nat) (m : Model) : Model :=
   { graph := dedupG limit [] m.graph, funcs := m.funcs }
-
-mutual
-/-- within every graph, initializers with equal deduplication keys are equal tensors (false exactly
-    for string tensors that differ only in trailing NUL bytes: D37) -/
-def dedupFaithfulG : Graph → Bool
-  | .mk _ _ inits nodes =>
-    inits.all (fun p => inits.all (fun q => dedupKey p.2 != dedupKey q.2 || p.2 == q.2)) &&
-      dedupFaithfulNodes nodes
-def dedupFaithfulNodes : List Node → Bool
-  | [] => true
-  | .mk _ _ _ _ bodies :: ns => dedupFaithfulBodies bodies && dedupFaithfulNodes ns
-def dedupFaithfulBodies : List Graph → Bool
-  | [] => true
-  | b :: bs => dedupFaithfulG b && dedupFaithfulBodies bs
-end
 
 /-! ## OutputFixPass (output_fix.py:25-143): main graph, functions and all of their subgraphs -/
 
@@ -511,7 +490,6 @@ def PassId.run : PassId → Model → Model
 /-- what the theorem about the pass assumes of its input model (decidable; evaluated by the driver
     before every step of every generated sequence) -/
 def PassId.pre : PassId → Model → Bool
-  | .dedup _, m => validModel m && dedupFaithfulG m.graph
   | .rmInitInputs, _ | .addInitInputs, _ | .clearMeta, _ | .nameFix, _ => true
   | .topoSort, m => validModel m
   | _, m => validModel m
